@@ -16,6 +16,44 @@ FLOWIR = "python/experiment/model/frontends/flowir.py"
 ALLOWING = {"RestartContextRestartPossible", "RestartContextHookNotAvailable"}
 
 
+# actual names of two locals of Engine.restart, found by their definitions (roles), not by their spelling
+MAXR = "max_restarts"
+RCTX = "restartContext"
+HOOKON = "reasons_for_restart"
+RCODE = "restartCode"
+
+
+def discover_roles(fn: ast.AST) -> None:
+    """MAXR: the local read from workflowAttributes['maxRestarts'] / .get('maxRestarts'); RCTX: the local that is assigned
+    members of codes.restartContexts."""
+    global MAXR, RCTX, HOOKON, RCODE
+    for n in source.walk_own(fn):
+        if isinstance(n, ast.Assign) and len(n.targets) == 1 and isinstance(n.targets[0], ast.Name):
+            v = n.value
+            if isinstance(v, ast.Call) and last_attr(v) == "get" and v.args and isinstance(v.args[0], ast.Constant) \
+                    and v.args[0].value == "restartHookOn":
+                HOOKON = n.targets[0].id
+    rc: Dict[str, int] = {}
+    for n in source.walk_own(fn):
+        if isinstance(n, ast.Assign) and len(n.targets) == 1 and isinstance(n.targets[0], ast.Name) \
+                and codes_key(n.value, "restartCodes") is not None:
+            rc[n.targets[0].id] = rc.get(n.targets[0].id, 0) + 1
+    if rc:
+        RCODE = max(rc, key=lambda k: rc[k])
+    for n in source.walk_own(fn):
+        if isinstance(n, ast.Assign) and len(n.targets) == 1 and isinstance(n.targets[0], ast.Name):
+            v = n.value
+            if any(isinstance(c, ast.Constant) and c.value == "maxRestarts" for c in ast.walk(v)) and "workflowAttributes" in source.src(v):
+                MAXR = n.targets[0].id
+    counts: Dict[str, int] = {}
+    for n in source.walk_own(fn):
+        if isinstance(n, ast.Assign) and len(n.targets) == 1 and isinstance(n.targets[0], ast.Name) \
+                and codes_key(n.value, "restartContexts") is not None:
+            counts[n.targets[0].id] = counts.get(n.targets[0].id, 0) + 1
+    if counts:
+        RCTX = max(counts, key=lambda k: counts[k])
+
+
 def codes_key(e: ast.AST, table: str) -> Optional[str]:
     """experiment.model.codes.<table>['Key'] -> 'Key'"""
     if isinstance(e, ast.Subscript) and isinstance(e.slice, ast.Constant) and isinstance(e.slice.value, str) \
@@ -129,6 +167,7 @@ def run(ctx) -> None:
     fir = ctx.repo.module(FLOWIR)
 
     fn = eng.func("Engine.restart")
+    discover_roles(fn)
     ctx.analysed(fn)
     cfg = CFG(fn)
     ctx.paths += cfg.paths_count()
@@ -141,7 +180,7 @@ def run(ctx) -> None:
     exc_tests: List[Tuple[Node, str]] = []
     for n in cfg.nodes:
         if n.kind == "test" and n.ast is not None:
-            v = exceeded_implies_bound(n.ast, "self.restarts", "max_restarts")
+            v = exceeded_implies_bound(n.ast, "self.restarts", MAXR)
             if v is not None:
                 exc_tests.append((n, "T"))
                 ctx.ob("C12.R1-budget-dominates-launch", n.ast, v,
@@ -173,13 +212,13 @@ def run(ctx) -> None:
     guard_tests = []
     for n in cfg.nodes:
         if n.kind == "test" and isinstance(n.ast, ast.Compare) and isinstance(n.ast.ops[0], ast.In) \
-                and isinstance(n.ast.left, ast.Name) and n.ast.left.id == "restartContext" \
+                and isinstance(n.ast.left, ast.Name) and n.ast.left.id == RCTX \
                 and isinstance(n.ast.comparators[0], (ast.List, ast.Tuple, ast.Set)):
             keys = {codes_key(e, "restartContexts") for e in n.ast.comparators[0].elts}
             guard_tests.append((n, keys))
     eqs = [(n, codes_key(match.compare_parts(n.ast)[2], "restartContexts")) for n in cfg.nodes
            if n.kind == "test" and match.compare_parts(n.ast) and isinstance(match.compare_parts(n.ast)[0], ast.Name)
-           and match.compare_parts(n.ast)[0].id == "restartContext" and isinstance(match.compare_parts(n.ast)[1], ast.Eq)]
+           and match.compare_parts(n.ast)[0].id == RCTX and isinstance(match.compare_parts(n.ast)[1], ast.Eq)]
     for rn in run_nodes:
         doms = [(n, keys) for (n, keys) in guard_tests if match.only_via_edges(cfg, rn, [(n, "T")])]
         ok = bool(doms)
@@ -193,12 +232,16 @@ def run(ctx) -> None:
                    "the launch guard admits contexts %s beyond %s (e.g. conditions-not-met / not-required / hook-failed "
                    "would start the task again)" % (sorted(str(k) for k in keys - ALLOWING), sorted(ALLOWING)))
             # reaching definitions of restartContext at the guard
-            rd = flow.reaching_defs(cfg, "restartContext")
+            rd = flow.reaching_defs(cfg, RCTX)
             defs = rd.get(gn.id, frozenset())
             in_tests = match.test_nodes(cfg, lambda t: "T" if (
                 isinstance(t, ast.Compare) and isinstance(t.ops[0], ast.In) and isinstance(t.left, ast.Name)
-                and t.left.id == "reason" and isinstance(t.comparators[0], ast.Name)
-                and t.comparators[0].id == "reasons_for_restart") else None)
+                and t.left.id == "reason"
+                # the restartHookOn list, directly or through a local bound to it
+                and any(isinstance(c_, ast.Constant) and c_.value == "restartHookOn"
+                        for v_ in ([t.comparators[0]] + (match.assigned_value(fn, t.comparators[0].id)
+                                                         if isinstance(t.comparators[0], ast.Name) else []))
+                        for c_ in ast.walk(v_))) else None)
             sub_tests = match.test_nodes(cfg, reason_test("SubmissionFailed"))
             reason_edges = [(n, l) for n, l in in_tests] + [(n, l) for n, l in sub_tests]
             n_defs = 0
@@ -207,7 +250,7 @@ def run(ctx) -> None:
                     ctx.ob("C12.R2-restartable-reasons-only", gn.ast, False,
                            "restartContext may be undefined at the launch guard", construct="restartContext defined")
                     continue
-                val = flow.def_value(cfg, d, "restartContext")
+                val = flow.def_value(cfg, d, RCTX)
                 key = codes_key(val, "restartContexts") if val is not None else None
                 dn = cfg.nodes[d]
                 n_defs += 1
@@ -224,7 +267,7 @@ def run(ctx) -> None:
                         % (key or short(val) if val is not None else "non-constant")))
             ctx.floor("C12.R2-restartable-reasons-only", n_defs, 4, "reaching definitions of restartContext at the launch guard")
     # reasons_for_restart is the component's restartHookOn
-    vals = match.assigned_value(fn, "reasons_for_restart")
+    vals = match.assigned_value(fn, HOOKON)
     ok = len(vals) == 1 and isinstance(vals[0], ast.Call) and last_attr(vals[0]) == "get" and vals[0].args \
         and isinstance(vals[0].args[0], ast.Constant) and vals[0].args[0].value == "restartHookOn" \
         and "workflowAttributes" in source.src(vals[0].func)
@@ -234,14 +277,14 @@ def run(ctx) -> None:
     # hook answers normalised to members of restartContexts: the finally block ends with a membership test
     norm = [n for n in cfg.nodes if n.kind == "test" and isinstance(n.ast, ast.Compare)
             and isinstance(n.ast.ops[0], ast.NotIn) and isinstance(n.ast.left, ast.Name)
-            and n.ast.left.id == "restartContext" and "restartContexts" in source.src(n.ast.comparators[0])]
+            and n.ast.left.id == RCTX and "restartContexts" in source.src(n.ast.comparators[0])]
     hook_defs = [n for n in cfg.nodes if n.kind == "stmt" and isinstance(n.ast, ast.Assign)
-                 and any(isinstance(t, ast.Name) and t.id == "restartContext" for t in n.ast.targets)
+                 and any(isinstance(t, ast.Name) and t.id == RCTX for t in n.ast.targets)
                  and isinstance(n.ast.value, ast.Call) and codes_key(n.ast.value, "restartContexts") is None]
     for hd in hook_defs:
         guards = [g for g, _ in guard_tests]
         const_redefs = [n for n in cfg.nodes if n.kind == "stmt" and isinstance(n.ast, ast.Assign) and n is not hd
-                        and any(isinstance(t, ast.Name) and t.id == "restartContext" for t in n.ast.targets)
+                        and any(isinstance(t, ast.Name) and t.id == RCTX for t in n.ast.targets)
                         and codes_key(n.ast.value, "restartContexts") is not None]
         ok = bool(norm) and all(
             (g.id not in cfg.reach([hd], blocked=list(norm) + const_redefs, include_starts=False)) for g in guards)
@@ -278,7 +321,7 @@ def run(ctx) -> None:
         def step(src, lab, dst, st):
             a = src.ast
             if src.kind == "stmt" and isinstance(a, ast.Assign) and any(
-                    isinstance(t, ast.Name) and t.id == "restartContext" for t in a.targets):
+                    isinstance(t, ast.Name) and t.id == RCTX for t in a.targets):
                 k = codes_key(a.value, "restartContexts")
                 st = "?" if k is None else ("yes" if k in ALLOWING else "no")
             if src.id in guard_ids and lab == "T" and st == "no":
@@ -333,7 +376,7 @@ def run(ctx) -> None:
     sub_tests = match.test_nodes(cfg, reason_test("SubmissionFailed"))
     init_tests = match.test_nodes(cfg, lambda t: "T" if (
         match.compare_parts(t) and isinstance(match.compare_parts(t)[1], ast.Eq) and isinstance(match.compare_parts(t)[0], ast.Name)
-        and match.compare_parts(t)[0].id == "restartCode" and codes_key(match.compare_parts(t)[2], "restartCodes") == "RestartInitiated")
+        and match.compare_parts(t)[0].id == RCODE and codes_key(match.compare_parts(t)[2], "restartCodes") == "RestartInitiated")
         else None)
     for rn in run_nodes:
         # assume reason == SubmissionFailed and restartCode == RestartInitiated (the value assigned right after run())
@@ -531,7 +574,7 @@ def run(ctx) -> None:
 
 def _unlimited(t: ast.AST) -> Optional[str]:
     cp = match.compare_parts(t)
-    if cp and isinstance(cp[0], ast.Name) and cp[0].id == "max_restarts":
+    if cp and isinstance(cp[0], ast.Name) and cp[0].id == MAXR:
         v = cp[2]
         neg1 = isinstance(v, ast.UnaryOp) and isinstance(v.op, ast.USub) and isinstance(v.operand, ast.Constant) and v.operand.value == 1
         neg1 = neg1 or (isinstance(v, ast.Constant) and v.value == -1)
@@ -545,7 +588,7 @@ def _unlimited(t: ast.AST) -> Optional[str]:
 def _check_defaults(ctx, fn, cfg) -> None:
     """max_restarts default table: None -> (-1 if restartHookFile else 3)."""
     defs = [n for n in cfg.nodes if n.kind == "stmt" and isinstance(n.ast, ast.Assign)
-            and any(isinstance(t, ast.Name) and t.id == "max_restarts" for t in n.ast.targets)]
+            and any(isinstance(t, ast.Name) and t.id == MAXR for t in n.ast.targets)]
     consts = []
     for n in defs:
         v = n.ast.value
@@ -553,7 +596,7 @@ def _check_defaults(ctx, fn, cfg) -> None:
             val = v.value if isinstance(v, ast.Constant) else -v.operand.value
             consts.append((n, val))
     none_tests = match.test_nodes(cfg, lambda t: "T" if (match.compare_parts(t) and isinstance(match.compare_parts(t)[0], ast.Name)
-                                                         and match.compare_parts(t)[0].id == "max_restarts"
+                                                         and match.compare_parts(t)[0].id == MAXR
                                                          and isinstance(match.compare_parts(t)[1], ast.Is)
                                                          and isinstance(match.compare_parts(t)[2], ast.Constant)
                                                          and match.compare_parts(t)[2].value is None) else None)
